@@ -285,6 +285,14 @@ uint32_t COSdoGetSize(CO_SDO *srv, uint32_t width, bool strict)
     return (result);
 }
 
+static bool COSdoIsEmpty(CO_SDO *srv)
+{
+    /* strings and domains may hold no data at the moment */
+    return (((srv->Obj->Type == CO_TSTRING) || (srv->Obj->Type == CO_TDOMAIN)) &&
+            (srv->Obj->Data != (CO_DATA)0) &&
+            (COObjGetSize(srv->Obj, srv->Node, 0) == 0u));
+}
+
 CO_ERR COSdoUploadExpedited(CO_SDO *srv)
 {
     CO_ERR   result = CO_ERR_SDO_ABORT;
@@ -293,6 +301,10 @@ CO_ERR COSdoUploadExpedited(CO_SDO *srv)
     uint32_t data   = 0;
     uint8_t  cmd;
 
+    if (COSdoIsEmpty(srv)) {
+        /* size 0 is announced, a single empty segment follows */
+        return (COSdoInitUploadSegmented(srv, 0));
+    }
     size = COSdoGetSize(srv, 0, true);
     if (size == 0) {
         return (result);
@@ -826,9 +838,14 @@ CO_ERR COSdoInitUploadBlock(CO_SDO *srv)
         return (CO_ERR_SDO_ABORT);
     }
 
-    srv->Blk.Size = COSdoGetSize(srv, 0, true);
-    if (srv->Blk.Size == 0) {
-        return (CO_ERR_SDO_ABORT);
+    if (COSdoIsEmpty(srv)) {
+        /* size 0 is announced, a single empty segment follows */
+        srv->Blk.Size = 0;
+    } else {
+        srv->Blk.Size = COSdoGetSize(srv, 0, true);
+        if (srv->Blk.Size == 0) {
+            return (CO_ERR_SDO_ABORT);
+        }
     }
     srv->Blk.SegNum = CO_GET_BYTE(srv->Frm, 4);
 
@@ -883,6 +900,7 @@ CO_ERR COSdoUploadBlock(CO_SDO *srv)
     uint8_t  seg;
     uint8_t  len;
     uint8_t  i;
+    bool     empty;
 
     /* The transfer buffer holds all bytes, which are read out of the object
      * and not acknowledged by the client up to now (Buf.Num bytes, starting
@@ -934,7 +952,9 @@ CO_ERR COSdoUploadBlock(CO_SDO *srv)
     srv->Blk.SegCnt = 0;
     srv->Buf.Cur    = srv->Buf.Start;
     rest            = srv->Buf.Num;
-    while ((srv->Blk.SegCnt < srv->Blk.SegNum) && (rest > 0u)) {
+    empty           = ((rest == 0u) && (srv->Blk.Size == 0u));   /* empty object */
+    while ((srv->Blk.SegCnt < srv->Blk.SegNum) && ((rest > 0u) || empty)) {
+        empty = false;
         srv->Blk.SegCnt++;
         seg = srv->Blk.SegCnt;
         if (rest > 7u) {
